@@ -626,7 +626,7 @@ class C05(Check):
         pats.append(('cleanstring', d['cleanstring'][0], d['cleanstring'][1], d['re_cleanstring']))
         pats.append(('simpleescapes', d['simpleescapes'][0], d['simpleescapes'][1], d['re_simpleescapes']))
         lines, cases = [], []
-        per = ctx.n(250, 6000)
+        per = ctx.n(800, 6000)
         lexemes = [g_token(rng)[1] for _ in range(300)]
         for name, p, fl, r in pats:
             cre = re.compile(p, fl)
@@ -666,7 +666,7 @@ class C05(Check):
         lines, cases = [], []
         alpha = list('\\\\\\\\0123456789abcdefABCDEFgG \t\r\n\f"x') + ['\r\n', '\\5c', '\\5C ', '\\110000', '\\10ffff',
                                                                          '\\0', '\\d800', 'é', 'K', 'İ']
-        for _ in range(ctx.n(3000, 80000)):
+        for _ in range(ctx.n(8000, 80000)):
             s = ''.join(rng.choice(alpha) for _ in range(rng.randint(0, 12)))
             lines.append('subu ' + enc(s))
             cases.append(('subu', s))
@@ -724,7 +724,7 @@ class C05(Check):
                 texts.append((cx % chr(c), 'boundary'))
         ctx.notes['boundary_class_points'] = len(pts)
         # grammar stream
-        for _ in range(ctx.n(1200, 60000)):
+        for _ in range(ctx.n(4000, 60000)):
             safe = rng.random() < 0.4
             text, expect, _ = g_sheet(rng, safe)
             pre = rng.choice(PREFIXES)
@@ -738,7 +738,7 @@ class C05(Check):
             if rng.random() < ctx.n(0.12, 0.3):
                 for k in range(len(text)):
                     texts.append((text[:k], 'truncated'))
-        for _ in range(ctx.n(1500, 60000)):
+        for _ in range(ctx.n(5000, 60000)):
             texts.append((rng.choice(PREFIXES) + g_soup(rng), 'soup'))
         # exhaustive: all strings of length <= 2 (quick) / 3 (thorough) over a small alphabet
         small = list('a1-\\"/*(u+@ \n') + ['\\41', 'é']
@@ -940,7 +940,7 @@ class C05(Check):
     # -- classification oracle --------------------------------------------------------------------------
     def oracle_classify(self, ctx):
         rng = ctx.sub_rng('classify')
-        for _ in range(ctx.n(1500, 60000)):
+        for _ in range(ctx.n(5000, 60000)):
             text, expect, gtoks = g_sheet(rng, True)
             kinds = [t[3] for t in gtoks]
             lex = []
@@ -989,7 +989,7 @@ class C05(Check):
     def oracle_completion(self, ctx):
         rng = ctx.sub_rng('completion')
         n = 0
-        while n < ctx.n(1500, 40000):
+        while n < ctx.n(4000, 40000):
             text, expect, gtoks = g_sheet(rng, True)
             typ, lexeme = gtoks[-1][0], gtoks[-1][1]
             if typ == 'STRING':
